@@ -174,6 +174,17 @@ func fnPkgPath(fn *ssa.Function) string {
 }
 
 func inModule(fn *ssa.Function) bool {
+	// bound-method wrappers (s.method used as a value) of module methods count as module code
+	if strings.HasPrefix(fn.Synthetic, "bound method wrapper") && len(fn.FreeVars) == 1 {
+		t := fn.FreeVars[0].Type()
+		if p, ok := t.(*types.Pointer); ok {
+			t = p.Elem()
+		}
+		if n, ok := t.(*types.Named); ok && n.Obj().Pkg() != nil {
+			pp := n.Obj().Pkg().Path()
+			return (pp == modPath || strings.HasPrefix(pp, modPath+"/")) && !strings.HasPrefix(pp, modPath+"/examples") && !strings.HasPrefix(pp, modPath+"/cmd")
+		}
+	}
 	p := fnPkgPath(fn)
 	if p != modPath && !strings.HasPrefix(p, modPath+"/") {
 		return false
